@@ -25,20 +25,28 @@ use std::str::FromStr;
 const HEADER: &str = "From AM Require Import Base.Prelude Codec.Bloom Codec.Hex Codec.ExId Codec.CursorCodec Codec.SyncCodec Exec.IdsExec.\nLocal Open Scope N_scope.\n";
 
 // ---------------------------------------------------------------- Coq literals
+/// byte string literal: short ones as a list, longer ones as (hb LEN 0xHEX), see Exec/IdsExec.v
+fn cb(b: &[u8]) -> String {
+    if b.len() <= 4 {
+        crate::util::coq_bytes(b)
+    } else {
+        format!("(hb {} 0x{})", b.len(), hex(b))
+    }
+}
 fn coq_s(s: &str) -> String {
-    coq_bytes(s.as_bytes())
+    cb(s.as_bytes())
 }
 fn coq_exid(id: &ObjId) -> String {
     match id {
         ObjId::Root => "ERoot".to_string(),
-        ObjId::Id(ctr, actor, hint) => format!("(EId {} {} {})", ctr, coq_bytes(actor.to_bytes()), hint),
+        ObjId::Id(ctr, actor, hint) => format!("(EId {} {} {})", ctr, cb(actor.to_bytes()), hint),
     }
 }
 fn coq_hs(hs: &[ChangeHash]) -> String {
-    coq_list(&hs.iter().map(|h| coq_bytes(&h.0)).collect::<Vec<_>>())
+    coq_list(&hs.iter().map(|h| cb(&h.0)).collect::<Vec<_>>())
 }
 fn coq_table(t: &[ActorId]) -> String {
-    coq_list(&t.iter().map(|a| coq_bytes(a.to_bytes())).collect::<Vec<_>>())
+    coq_list(&t.iter().map(|a| cb(a.to_bytes())).collect::<Vec<_>>())
 }
 /// fields of a cursor, read from its Display form ("s" | "e" | [-]ctr@hex)
 fn cursor_fields(c: &Cursor) -> Option<(u8, u64, Vec<u8>, bool)> {
@@ -66,7 +74,7 @@ fn coq_cursor(c: &Cursor) -> Option<String> {
     Some(match k {
         0 => "CStart".to_string(),
         1 => "CEnd".to_string(),
-        _ => format!("(COp {} {} {})", ctr, coq_bytes(&a), if before { "MBefore" } else { "MAfter" }),
+        _ => format!("(COp {} {} {})", ctr, cb(&a), if before { "MBefore" } else { "MAfter" }),
     })
 }
 fn coq_filter(f: &BloomFilter) -> String {
@@ -77,7 +85,7 @@ fn coq_filter(f: &BloomFilter) -> String {
         v["num_entries"].as_u64().unwrap(),
         v["num_bits_per_entry"].as_u64().unwrap(),
         v["num_probes"].as_u64().unwrap(),
-        coq_bytes(&bits)
+        cb(&bits)
     )
 }
 fn flag_bits(f: &MessageFlags) -> u8 {
@@ -97,7 +105,7 @@ fn mk_flags(bits: u8) -> MessageFlags {
 fn coq_msg(m: &Message) -> String {
     let haves: Vec<String> =
         m.have.iter().map(|h| format!("(mkHave {} {})", coq_hs(&h.last_sync), coq_filter(&h.bloom))).collect();
-    let changes: Vec<String> = m.changes.iter().map(coq_bytes).collect();
+    let changes: Vec<String> = m.changes.iter().map(|c| cb(c)).collect();
     format!(
         "(mkMsg {} {} {} {} {} {})",
         coq_hs(&m.heads),
@@ -381,7 +389,7 @@ pub fn run(rng: &mut Rng, tier: &str, out: &str) -> Report {
     let mut a_doc: Option<Automerge> = None;
 
     // ================= A: ids and cursors across replicas =================
-    let n_universes = if thorough { 40 } else { 4 };
+    let n_universes = if thorough { 24 } else { 4 };
     for ui in 0..n_universes {
         let mut urng = rng.fork();
         let u = match guard(|| build_universe(&mut urng)) {
@@ -473,7 +481,7 @@ pub fn run(rng: &mut Rng, tier: &str, out: &str) -> Report {
                 let wire = native_p.to_bytes();
                 valid_exid_bytes.push(wire.clone());
                 cw.push(
-                    format!("chk_exid_enc {} {} {}", coq_exid(&native_p), coq_bytes(&wire), coq_s(&native_p.to_string())),
+                    format!("chk_exid_enc {} {} {}", coq_exid(&native_p), cb(&wire), coq_s(&native_p.to_string())),
                     json!({"kind": "exid-enc", "text": text, "universe": ui}),
                 );
                 let decoded = match guard(|| ObjId::try_from(&wire[..])) {
@@ -497,7 +505,7 @@ pub fn run(rng: &mut Rng, tier: &str, out: &str) -> Report {
                     rep.fail(&["C19"], "ids|roundtrip|exid-bytes-differs", "decoded object id differs from the encoded one", json!({"text": text, "wire": hex(&wire), "decoded": format!("{:?}", decoded)}));
                 }
                 cw.push(
-                    format!("chk_exid_dec {} 0 {}", coq_bytes(&wire), coq_exid(&decoded)),
+                    format!("chk_exid_dec {} 0 {}", cb(&wire), coq_exid(&decoded)),
                     json!({"kind": "exid-dec", "wire": hex(&wire), "universe": ui}),
                 );
                 // resolve the decoded id in the other replica
@@ -566,7 +574,7 @@ pub fn run(rng: &mut Rng, tier: &str, out: &str) -> Report {
                         valid_cursor_bytes.push(cwire.clone());
                         valid_strings.push(cstr.clone());
                         let Some(cterm) = coq_cursor(&c) else { continue };
-                        cw.push(format!("chk_cursor_enc {} {} {}", cterm, coq_bytes(&cwire), coq_s(&cstr)), json!({"kind": "cursor-enc", "cursor": cstr}));
+                        cw.push(format!("chk_cursor_enc {} {} {}", cterm, cb(&cwire), coq_s(&cstr)), json!({"kind": "cursor-enc", "cursor": cstr}));
                         let db = guard(|| Cursor::try_from(&cwire[..]));
                         let ds = guard(|| Cursor::try_from(cstr.as_str()));
                         let mut decoded_c = None;
@@ -583,7 +591,7 @@ pub fn run(rng: &mut Rng, tier: &str, out: &str) -> Report {
                                 Err(pn) => rep.fail(&["C19", "C15"], &format!("panic|Cursor::try_from|{}", pn.signature()), &pn.message, json!({"cursor": cstr, "wire": hex(&cwire)})),
                             }
                         }
-                        cw.push(format!("chk_cursor_dec {} 0 {}", coq_bytes(&cwire), cterm), json!({"kind": "cursor-dec", "wire": hex(&cwire)}));
+                        cw.push(format!("chk_cursor_dec {} 0 {}", cb(&cwire), cterm), json!({"kind": "cursor-dec", "wire": hex(&cwire)}));
                         cw.push(format!("chk_cursor_str {} 0 {}", coq_s(&cstr), cterm), json!({"kind": "cursor-str", "cursor": cstr}));
                         let Some(dc) = decoded_c else { continue };
                         if native_q.is_none() {
@@ -738,11 +746,11 @@ pub fn run(rng: &mut Rng, tier: &str, out: &str) -> Report {
             Ok(_) => rep.fail(&["C19"], "ids|roundtrip|actor-hex", "actor id does not survive its hex form", json!({"actor": s})),
             Err(pn) => rep.fail(&["C19", "C15"], &format!("panic|ActorId::try_from|{}", pn.signature()), &pn.message, json!({"actor": s})),
         }
-        cw.push(format!("chk_actor_hex {} {}", coq_bytes(a.to_bytes()), coq_s(&s)), json!({"kind": "actor-hex", "actor": s}));
-        cw.push(format!("chk_actor_parse {} 0 {}", coq_s(&s), coq_bytes(a.to_bytes())), json!({"kind": "actor-parse", "actor": s}));
+        cw.push(format!("chk_actor_hex {} {}", cb(a.to_bytes()), coq_s(&s)), json!({"kind": "actor-hex", "actor": s}));
+        cw.push(format!("chk_actor_parse {} 0 {}", coq_s(&s), cb(a.to_bytes())), json!({"kind": "actor-parse", "actor": s}));
         let up = s.to_uppercase();
         if let Ok(Ok(b)) = guard(|| ActorId::try_from(up.as_str())) {
-            cw.push(format!("chk_actor_parse {} 0 {}", coq_s(&up), coq_bytes(b.to_bytes())), json!({"kind": "actor-parse", "actor": up}));
+            cw.push(format!("chk_actor_parse {} 0 {}", coq_s(&up), cb(b.to_bytes())), json!({"kind": "actor-parse", "actor": up}));
         }
         valid_strings.push(s);
         let h = if i < all_hashes.len() { all_hashes[i] } else { let mut x = [0u8; 32]; x.copy_from_slice(&rng.bytes(32)); ChangeHash(x) };
@@ -752,8 +760,8 @@ pub fn run(rng: &mut Rng, tier: &str, out: &str) -> Report {
             Ok(_) => rep.fail(&["C19"], "ids|roundtrip|hash-hex", "change hash does not survive its hex form", json!({"hash": hs})),
             Err(pn) => rep.fail(&["C19", "C15"], &format!("panic|ChangeHash::from_str|{}", pn.signature()), &pn.message, json!({"hash": hs})),
         }
-        cw.push(format!("chk_hash_hex {} {}", coq_bytes(&h.0), coq_s(&hs)), json!({"kind": "hash-hex", "hash": hs}));
-        cw.push(format!("chk_hash_parse {} 0 {}", coq_s(&hs), coq_bytes(&h.0)), json!({"kind": "hash-parse", "hash": hs}));
+        cw.push(format!("chk_hash_hex {} {}", cb(&h.0), coq_s(&hs)), json!({"kind": "hash-hex", "hash": hs}));
+        cw.push(format!("chk_hash_parse {} 0 {}", coq_s(&hs), cb(&h.0)), json!({"kind": "hash-parse", "hash": hs}));
         valid_strings.push(hs);
         rep.count("hex");
         rep.case(None);
@@ -819,7 +827,7 @@ pub fn run(rng: &mut Rng, tier: &str, out: &str) -> Report {
             let st = sync::State { shared_heads: hs.clone(), ..Default::default() };
             let r = guard(|| st.encode());
             let (code, wire) = match r { Ok(w) => (0, w), Err(_) => (3, vec![]) };
-            cw.push(format!("chk_state_enc {} {} {}", coq_hs(&hs), code, coq_bytes(&wire)), json!({"kind": "state-enc-unsorted"}));
+            cw.push(format!("chk_state_enc {} {} {}", coq_hs(&hs), code, cb(&wire)), json!({"kind": "state-enc-unsorted"}));
             rep.count(if code == 3 { "unsorted_encode_debug_assert" } else { "unsorted_encode_ok" });
         }
     }
@@ -891,7 +899,7 @@ pub fn run(rng: &mut Rng, tier: &str, out: &str) -> Report {
         let bs = mutate(rng, &valid_exid_bytes);
         match guard(|| ObjId::try_from(&bs[..])) {
             Ok(Ok(id)) => {
-                cw.push(format!("chk_exid_dec {} 0 {}", coq_bytes(&bs), coq_exid(&id)), json!({"kind": "mal-exid", "bytes": hex(&bs)}));
+                cw.push(format!("chk_exid_dec {} 0 {}", cb(&bs), coq_exid(&id)), json!({"kind": "mal-exid", "bytes": hex(&bs)}));
                 rep.count("mal_exid_ok");
                 // a decoded id must be usable without a crash (C15 / C37) and re-encode to something that decodes to itself
                 let again = ObjId::try_from(&id.to_bytes()[..]);
@@ -914,12 +922,12 @@ pub fn run(rng: &mut Rng, tier: &str, out: &str) -> Report {
                 cw.push(format!("chk_resolve {} {} {} {}", coq_table(&a_table), coq_exid(&id), st, idx), json!({"kind": "mal-resolve", "bytes": hex(&bs)}));
             }
             Ok(Err(_)) => {
-                cw.push(format!("chk_exid_dec {} 2 ERoot", coq_bytes(&bs)), json!({"kind": "mal-exid", "bytes": hex(&bs)}));
+                cw.push(format!("chk_exid_dec {} 2 ERoot", cb(&bs)), json!({"kind": "mal-exid", "bytes": hex(&bs)}));
                 rep.count("mal_exid_err");
             }
             Err(pn) => {
                 rep.fail(&["C19", "C15"], &format!("panic|ObjId::try_from|{}", pn.signature()), &pn.message, json!({"bytes": hex(&bs)}));
-                cw.push(format!("chk_exid_dec {} 3 ERoot", coq_bytes(&bs)), json!({"kind": "mal-exid", "bytes": hex(&bs)}));
+                cw.push(format!("chk_exid_dec {} 3 ERoot", cb(&bs)), json!({"kind": "mal-exid", "bytes": hex(&bs)}));
             }
         }
         // --- cursor bytes
@@ -927,7 +935,7 @@ pub fn run(rng: &mut Rng, tier: &str, out: &str) -> Report {
         match guard(|| Cursor::try_from(&bs[..])) {
             Ok(Ok(c)) => {
                 if let Some(t) = coq_cursor(&c) {
-                    cw.push(format!("chk_cursor_dec {} 0 {}", coq_bytes(&bs), t), json!({"kind": "mal-cursor", "bytes": hex(&bs)}));
+                    cw.push(format!("chk_cursor_dec {} 0 {}", cb(&bs), t), json!({"kind": "mal-cursor", "bytes": hex(&bs)}));
                 }
                 rep.count("mal_cursor_ok");
                 if Cursor::try_from(&c.to_bytes()[..]).ok().as_ref() != Some(&c) || Cursor::try_from(c.to_string().as_str()).ok().as_ref() != Some(&c) {
@@ -942,12 +950,12 @@ pub fn run(rng: &mut Rng, tier: &str, out: &str) -> Report {
                 }
             }
             Ok(Err(_)) => {
-                cw.push(format!("chk_cursor_dec {} 2 CStart", coq_bytes(&bs)), json!({"kind": "mal-cursor", "bytes": hex(&bs)}));
+                cw.push(format!("chk_cursor_dec {} 2 CStart", cb(&bs)), json!({"kind": "mal-cursor", "bytes": hex(&bs)}));
                 rep.count("mal_cursor_err");
             }
             Err(pn) => {
                 rep.fail(&["C19", "C15"], &format!("panic|Cursor::try_from|{}", pn.signature()), &pn.message, json!({"bytes": hex(&bs)}));
-                cw.push(format!("chk_cursor_dec {} 3 CStart", coq_bytes(&bs)), json!({"kind": "mal-cursor", "bytes": hex(&bs)}));
+                cw.push(format!("chk_cursor_dec {} 3 CStart", cb(&bs)), json!({"kind": "mal-cursor", "bytes": hex(&bs)}));
             }
         }
         // --- strings
@@ -984,7 +992,7 @@ pub fn run(rng: &mut Rng, tier: &str, out: &str) -> Report {
         }
         if i % 2 == 0 {
             match guard(|| ActorId::try_from(s.as_str())) {
-                Ok(Ok(a)) => cw.push(format!("chk_actor_parse {} 0 {}", coq_s(&s), coq_bytes(a.to_bytes())), json!({"kind": "mal-actor", "string": s})),
+                Ok(Ok(a)) => cw.push(format!("chk_actor_parse {} 0 {}", coq_s(&s), cb(a.to_bytes())), json!({"kind": "mal-actor", "string": s})),
                 Ok(Err(_)) => cw.push(format!("chk_actor_parse {} 2 []", coq_s(&s)), json!({"kind": "mal-actor", "string": s})),
                 Err(pn) => {
                     rep.fail(&["C19", "C15"], &format!("panic|ActorId::try_from|{}", pn.signature()), &pn.message, json!({"string": s}));
@@ -992,7 +1000,7 @@ pub fn run(rng: &mut Rng, tier: &str, out: &str) -> Report {
                 }
             }
             match guard(|| ChangeHash::from_str(&s)) {
-                Ok(Ok(h)) => cw.push(format!("chk_hash_parse {} 0 {}", coq_s(&s), coq_bytes(&h.0)), json!({"kind": "mal-hash", "string": s})),
+                Ok(Ok(h)) => cw.push(format!("chk_hash_parse {} 0 {}", coq_s(&s), cb(&h.0)), json!({"kind": "mal-hash", "string": s})),
                 Ok(Err(_)) => cw.push(format!("chk_hash_parse {} 2 []", coq_s(&s)), json!({"kind": "mal-hash", "string": s})),
                 Err(pn) => {
                     rep.fail(&["C19", "C15"], &format!("panic|ChangeHash::from_str|{}", pn.signature()), &pn.message, json!({"string": s}));
@@ -1005,32 +1013,32 @@ pub fn run(rng: &mut Rng, tier: &str, out: &str) -> Report {
             let bs = mutate(rng, &valid_states);
             match guard(|| sync::State::decode(&bs)) {
                 Ok(Ok(s)) => {
-                    cw.push(format!("chk_state_dec {} 0 {} {}", coq_bytes(&bs), coq_hs(&s.shared_heads), coq_nlist(state_rest(&s))), json!({"kind": "mal-state", "bytes": hex(&bs)}));
+                    cw.push(format!("chk_state_dec {} 0 {} {}", cb(&bs), coq_hs(&s.shared_heads), coq_nlist(state_rest(&s))), json!({"kind": "mal-state", "bytes": hex(&bs)}));
                     rep.count("mal_state_ok");
                 }
                 Ok(Err(_)) => {
-                    cw.push(format!("chk_state_dec {} 2 [] []", coq_bytes(&bs)), json!({"kind": "mal-state", "bytes": hex(&bs)}));
+                    cw.push(format!("chk_state_dec {} 2 [] []", cb(&bs)), json!({"kind": "mal-state", "bytes": hex(&bs)}));
                     rep.count("mal_state_err");
                 }
                 Err(pn) => {
                     rep.fail(&["C19", "C15"], &format!("panic|State::decode|{}", pn.signature()), &pn.message, json!({"bytes": hex(&bs)}));
-                    cw.push(format!("chk_state_dec {} 3 [] []", coq_bytes(&bs)), json!({"kind": "mal-state", "bytes": hex(&bs)}));
+                    cw.push(format!("chk_state_dec {} 3 [] []", cb(&bs)), json!({"kind": "mal-state", "bytes": hex(&bs)}));
                 }
             }
             let small: Vec<Vec<u8>> = valid_msgs.iter().filter(|m| m.len() < 600).cloned().collect();
             let bs = mutate(rng, &small);
             match guard(|| Message::decode(&bs)) {
                 Ok(Ok(m)) => {
-                    cw.push(format!("chk_msg_dec {} 0 {}", coq_bytes(&bs), coq_msg(&m)), json!({"kind": "mal-msg", "bytes": hex(&bs)}));
+                    cw.push(format!("chk_msg_dec {} 0 {}", cb(&bs), coq_msg(&m)), json!({"kind": "mal-msg", "bytes": hex(&bs)}));
                     rep.count("mal_msg_ok");
                 }
                 Ok(Err(_)) => {
-                    cw.push(format!("chk_msg_dec {} 2 dummy_msg", coq_bytes(&bs)), json!({"kind": "mal-msg", "bytes": hex(&bs)}));
+                    cw.push(format!("chk_msg_dec {} 2 dummy_msg", cb(&bs)), json!({"kind": "mal-msg", "bytes": hex(&bs)}));
                     rep.count("mal_msg_err");
                 }
                 Err(pn) => {
                     rep.fail(&["C19", "C15"], &format!("panic|Message::decode|{}", pn.signature()), &pn.message, json!({"bytes": hex(&bs)}));
-                    cw.push(format!("chk_msg_dec {} 3 dummy_msg", coq_bytes(&bs)), json!({"kind": "mal-msg", "bytes": hex(&bs)}));
+                    cw.push(format!("chk_msg_dec {} 3 dummy_msg", cb(&bs)), json!({"kind": "mal-msg", "bytes": hex(&bs)}));
                 }
             }
         }
@@ -1100,7 +1108,7 @@ fn check_message(rep: &mut Report, cw: &mut CaseWriter, msg: &Message, origin: &
             return None;
         }
     };
-    cw.push(format!("chk_msg_enc {} 0 {}", term, coq_bytes(&wire)), json!({"kind": "msg-enc", "origin": origin, "len": wire.len()}));
+    cw.push(format!("chk_msg_enc {} 0 {}", term, cb(&wire)), json!({"kind": "msg-enc", "origin": origin, "len": wire.len()}));
     pool.push(wire.clone());
     rep.count(&format!("msg_{}", origin));
     rep.count(match msg.version { MessageVersion::V1 => "msg_v1", MessageVersion::V2 => "msg_v2" });
@@ -1121,17 +1129,17 @@ fn check_message(rep: &mut Report, cw: &mut CaseWriter, msg: &Message, origin: &
                 };
                 rep.fail(&["C19"], &sig, "decoded sync message differs from the encoded one", json!({"origin": origin, "wire": hex(&wire), "message": term, "decoded": coq_msg(&d)}));
             }
-            cw.push(format!("chk_msg_dec {} 0 {}", coq_bytes(&wire), coq_msg(&d)), json!({"kind": "msg-dec", "origin": origin}));
+            cw.push(format!("chk_msg_dec {} 0 {}", cb(&wire), coq_msg(&d)), json!({"kind": "msg-dec", "origin": origin}));
             Some(d)
         }
         Ok(Err(e)) => {
             rep.fail(&["C19"], "ids|roundtrip|message-rejected", &format!("own message encoding rejected: {}", e), json!({"origin": origin, "wire": hex(&wire)}));
-            cw.push(format!("chk_msg_dec {} 2 dummy_msg", coq_bytes(&wire)), json!({"kind": "msg-dec", "origin": origin}));
+            cw.push(format!("chk_msg_dec {} 2 dummy_msg", cb(&wire)), json!({"kind": "msg-dec", "origin": origin}));
             None
         }
         Err(pn) => {
             rep.fail(&["C19", "C15"], &format!("panic|Message::decode|{}", pn.signature()), &pn.message, json!({"origin": origin, "wire": hex(&wire)}));
-            cw.push(format!("chk_msg_dec {} 3 dummy_msg", coq_bytes(&wire)), json!({"kind": "msg-dec", "origin": origin}));
+            cw.push(format!("chk_msg_dec {} 3 dummy_msg", cb(&wire)), json!({"kind": "msg-dec", "origin": origin}));
             None
         }
     }
@@ -1145,7 +1153,7 @@ fn check_state(rep: &mut Report, cw: &mut CaseWriter, st: &sync::State, origin: 
             return;
         }
     };
-    cw.push(format!("chk_state_enc {} 0 {}", coq_hs(&st.shared_heads), coq_bytes(&wire)), json!({"kind": "state-enc", "origin": origin}));
+    cw.push(format!("chk_state_enc {} 0 {}", coq_hs(&st.shared_heads), cb(&wire)), json!({"kind": "state-enc", "origin": origin}));
     pool.push(wire.clone());
     rep.count(&format!("state_{}", origin));
     rep.case(if !st.shared_heads.is_empty() { Some(fnv(&wire)) } else { None });
@@ -1155,7 +1163,7 @@ fn check_state(rep: &mut Report, cw: &mut CaseWriter, st: &sync::State, origin: 
             if d.shared_heads != st.shared_heads || rest != STATE_REST_DECODED {
                 rep.fail(&["C19"], "ids|roundtrip|state-differs", "decoded sync state does not carry the persisted field / the documented defaults", json!({"origin": origin, "wire": hex(&wire)}));
             }
-            cw.push(format!("chk_state_dec {} 0 {} {}", coq_bytes(&wire), coq_hs(&d.shared_heads), coq_nlist(rest)), json!({"kind": "state-dec", "origin": origin}));
+            cw.push(format!("chk_state_dec {} 0 {} {}", cb(&wire), coq_hs(&d.shared_heads), coq_nlist(rest)), json!({"kind": "state-dec", "origin": origin}));
         }
         Ok(Err(e)) => rep.fail(&["C19"], "ids|roundtrip|state-rejected", &format!("own state encoding rejected: {}", e), json!({"origin": origin, "wire": hex(&wire)})),
         Err(pn) => rep.fail(&["C19", "C15"], &format!("panic|State::decode|{}", pn.signature()), &pn.message, json!({"origin": origin, "wire": hex(&wire)})),
